@@ -11,9 +11,9 @@ EXTENDS MC_Log, TraceIO, Integers
 VARIABLE l
 
 Ev == TraceLog[l]
-TIsCall(x) == x.t \in {"c", "f", "p"}      \* functor, std::function, function pointer
+TIsCall(x) == x.t \in {"c", "f", "p", "n"}      \* functor, std::function, function pointer, function by name
 TText(x) == IF x.t = "i" THEN ToString(x.v) ELSE x.v
-TItems == [t : {"s", "c", "f", "p"}, v : STRING] \cup [t : {"i"}, v : Int]
+TItems == [t : {"s", "c", "f", "p", "n"}, v : STRING] \cup [t : {"i"}, v : Int]
 
 TInit ==
   /\ l = 1 /\ cfg = Cfg(0, 1) /\ thr = [i \in 1..3 |-> 0] /\ slot = [s \in 1..NSlots |-> Free]
